@@ -1,4 +1,4 @@
-use rusty_common::{AtPos, Position, Positioned};
+use rusty_common::{AtPos, HasPos, Position, Positioned};
 use rusty_linter::core::ScopeName;
 use rusty_parser::*;
 
@@ -11,6 +11,7 @@ impl InstructionGenerator {
         args: Expressions,
         pos: Position,
     ) {
+        let args = self.freeze_by_ref_arg_subscripts(args);
         self.generate_push_unnamed_args_instructions(&args, pos);
         self.push(Instruction::PushStack, pos);
         self.push(Instruction::BuiltInFunction(function_name), pos);
@@ -27,6 +28,7 @@ impl InstructionGenerator {
         pos: Position,
     ) {
         let (name, args) = built_in_sub_call.into();
+        let args = self.freeze_by_ref_arg_subscripts(args);
         self.generate_push_unnamed_args_instructions(&args, pos);
         self.push(Instruction::PushStack, pos);
         self.push(Instruction::BuiltInSub(name), pos);
@@ -41,6 +43,7 @@ impl InstructionGenerator {
         args: Expressions,
     ) {
         let Positioned { element: name, pos } = function_name;
+        let args = self.freeze_by_ref_arg_subscripts(args);
         let qualified_name = name.demand_qualified();
         let scope_name = ScopeName::Function(qualified_name.clone());
         // cloning to fight the borrow checker
@@ -69,6 +72,7 @@ impl InstructionGenerator {
 
     pub fn generate_sub_call_instructions(&mut self, sub_call: SubCall, pos: Position) {
         let (name, args) = sub_call.into();
+        let args = self.freeze_by_ref_arg_subscripts(args);
         let scope_name = ScopeName::Sub(name);
         // cloning to fight the borrow checker
         let sub_impl_parameters: Vec<Parameter> = self
@@ -84,6 +88,80 @@ impl InstructionGenerator {
         self.generate_stash_by_ref_args(&args);
         self.push(Instruction::PopStack, pos);
         self.generate_un_stash_by_ref_args(&args);
+    }
+
+    /// An array element passed by reference is copied in before the call and copied back
+    /// after it. Both must address the same element, so a subscript that is not a literal
+    /// is evaluated once, before the call, into a hidden variable of the current memory
+    /// block (like the limit of a FOR loop), and the argument uses that variable: otherwise
+    /// `S I%, A(I%)` would write back to another element when S changes I%, and a
+    /// function call inside a subscript would run twice.
+    fn freeze_by_ref_arg_subscripts(&mut self, args: Expressions) -> Expressions {
+        let mut counter: usize = 0;
+        args.into_iter()
+            .map(|Positioned { element: arg, pos }| {
+                if arg.is_by_ref() {
+                    self.freeze_subscripts(arg, pos, &mut counter).at_pos(pos)
+                } else {
+                    arg.at_pos(pos)
+                }
+            })
+            .collect()
+    }
+
+    fn freeze_subscripts(
+        &mut self,
+        expr: Expression,
+        pos: Position,
+        counter: &mut usize,
+    ) -> Expression {
+        match expr {
+            Expression::ArrayElement(name, indices, expression_type) => {
+                let frozen: Expressions = indices
+                    .into_iter()
+                    .map(|index| {
+                        if matches!(index.element, Expression::IntegerLiteral(_)) {
+                            return index;
+                        }
+                        let index_pos = index.pos();
+                        *counter += 1;
+                        let hidden_name = Name::new(
+                            BareName::new(format!(
+                                "arg-subscript-{}-{}-{}",
+                                pos.row(),
+                                pos.col(),
+                                counter
+                            )),
+                            Some(TypeQualifier::PercentInteger),
+                        );
+                        self.generate_expression_instructions_casting(
+                            index,
+                            ExpressionType::BuiltIn(TypeQualifier::PercentInteger),
+                        );
+                        self.push(
+                            Instruction::VarPathName(super::RootPath {
+                                name: hidden_name.clone(),
+                                shared: false,
+                            }),
+                            index_pos,
+                        );
+                        self.push(Instruction::CopyAToVarPath, index_pos);
+                        Expression::Variable(
+                            hidden_name,
+                            ExpressionType::BuiltIn(TypeQualifier::PercentInteger),
+                        )
+                        .at_pos(index_pos)
+                    })
+                    .collect();
+                Expression::ArrayElement(name, frozen, expression_type)
+            }
+            Expression::Property(left, property_name, expression_type) => Expression::Property(
+                Box::new(self.freeze_subscripts(*left, pos, counter)),
+                property_name,
+                expression_type,
+            ),
+            _ => expr,
+        }
     }
 
     fn generate_push_named_args_instructions(
